@@ -803,6 +803,10 @@ class QSerialization(DeconstructedSerialization):
         Q.AND: ' & ',
     }
 
+    if hasattr(Q, 'XOR'):
+        # Django >= 4.1
+        child_separators[Q.XOR] = ' ^ '
+
     @classmethod
     def serialize_to_signature(cls, q):
         """Serialize a Q object to JSON-compatible signature data.
